@@ -164,10 +164,13 @@ def _scan_file(path: str, fidx: int) -> None:
     class V(ast.NodeVisitor):
         def __init__(self):
             self.stack = []
+            self.globals = [set()]
 
         def visit_FunctionDef(self, node):
             self.stack.append(node.name)
+            self.globals.append({n for g in ast.walk(node) if isinstance(g, (ast.Global, ast.Nonlocal)) for n in g.names})
             self.generic_visit(node)
+            self.globals.pop()
             self.stack.pop()
 
         visit_AsyncFunctionDef = visit_FunctionDef
@@ -189,6 +192,8 @@ def _scan_file(path: str, fidx: int) -> None:
                 for tt in ast.walk(t):
                     if isinstance(tt, (ast.Subscript, ast.Attribute)) and isinstance(tt.ctx, ast.Store):
                         self._mark(node)
+                    elif isinstance(tt, ast.Name) and tt.id in self.globals[-1]:
+                        self._mark(node)  # rebinding a module-level / enclosing name publishes shared state
             self.generic_visit(node)
 
         def visit_AugAssign(self, node):
